@@ -135,6 +135,19 @@ def gen_tree(rng: random.Random, kn: Knobs):
             paths.append(path + [hk])
             if rng.random() < 0.3:
                 h["_want_default"] = True
+            if kn.p_history >= 0.5 and rng.random() < 0.3:
+                # a parent may declare BOTH kinds of history child; they share one record
+                other = {"type": "history", "history": "deep" if h["history"] == "shallow" else "shallow"}
+                if rng.random() < 0.5:
+                    kids[hk + "b"] = other
+                    paths.append(path + [hk + "b"])
+                else:           # declared BEFORE the first one
+                    first = kids.pop(hk)
+                    paths.pop()
+                    kids[hk + "a"] = other
+                    kids[hk] = first
+                    paths.append(path + [hk + "a"])
+                    paths.append(path + [hk])
         return st
 
     root = mk(0, [], False)
